@@ -228,6 +228,32 @@ class Gen:
             if m: self.w('srclen %s' % m['tok'])
         elif a == 'errno':
             if d > 0: self.w('errno %d' % r.choice([9, 11, 4, 22, 2]))
+        elif a == 'foreign':
+            self.op_foreign(d)
+
+    def op_foreign(self, d):
+        """C14: a module operation issued by another thread (holding its own context, or none), or a message
+        addressed to a module of another thread's context.  Refused, so the generator's own bookkeeping is untouched."""
+        r = self.r
+        m = self.pick()
+        if not m: return
+        if r.random() < 0.3:
+            # the alien module may carry the name of one of ours
+            self.w('xtell %s %s %d' % (m['tok'], r.choice(NAMES[:self.max_mods + 1]), 1 if r.random() < 0.4 else 0))
+            return
+        t = (self.pick() or m)['tok']
+        h = m['tok']
+        self.pay += 1
+        inner = r.choice([
+            'start %s' % h, 'pause %s' % h, 'resume %s' % h, 'stop %s' % h, 'dereg %s' % h,
+            'become %s %d' % (h, r.randrange(1, 8)), 'unbecome %s' % h, 'unstash %s %d' % (h, r.randrange(0, 3)),
+            'batch_size %s %d' % (h, r.randrange(0, 4)), 'batch_to %s %d' % (h, r.choice([0, 10 ** 12])),
+            'tb %s %d %d' % (h, r.choice([0, 1, 10 ** 9]), r.randrange(1, 4)),
+            'tell %s %s p%d %d' % (h, t, self.pay, r.randrange(2)), 'pub %s %s p%d %d' % (h, r.choice(USER_TOPICS + ['-']), self.pay, r.randrange(2)),
+            'pill %s %s' % (h, t), 'sub %s %s - 0 u%d' % (h, r.choice(SUB_TOPICS), r.randrange(1, 9)), 'unsub %s %s' % (h, r.choice(SUB_TOPICS)),
+            'reg_fd %s f%d - u1' % (h, r.randrange(0, 7)), 'dereg_fd %s f%d' % (h, r.randrange(0, 6)),
+            'reg_tmr %s %d - u1' % (h, r.choice([0, 10 ** 12])), 'dereg_tmr %s %d' % (h, r.choice([0, 10 ** 12])), 'srclen %s' % h])
+        self.w('foreign %s %s' % (r.choice(['ctx', 'none']), inner))
 
     def op_life(self, d):
         r = self.r
